@@ -1,4 +1,81 @@
+/-
+C09 — Fetch and push leave the receiving side closed and identical, and are idempotent.
+Property theorems only. The theorems compose the C08 finder model (Model/Finder.lean: which commits
+the sender lists) with the C07 transfer model (Model/Transfer.lean: sender object order, packfile
+cut, receiver acceptance): the ref update of a fetch/push happens only after `receiveAll` succeeded
+(that order is checked on the implementation by the C13 crash runs), so closure of the updated ref
+is closure of the receiver's object set after the transfer.
+PARTIAL: one want per theorem, negotiation rounds are abstracted to "the acknowledged commons are
+commits the receiver holds"; HTTP framing, gzip, sessions and the reference server are exercised by
+the correspondence runs (Driver/C09.lean evaluates the same closure clauses on both repositories'
+observed state), not modelled.
+-/
 import WrglModel.Model.Sync
+import WrglModel.Lemmas.C09
+import WrglModel.Lemmas.C09E2E
+import WrglModel.Gen.Facts
 namespace Wrgl
-theorem C09_placeholder : True := trivial
+
+/-- Closure of the selection: the receiver holds a history closed under parents and every
+    acknowledged common commit; then every ancestor of the want is already held or is listed. -/
+theorem C09_selection_closed (g : Graph) (hwf : g.wf = true) (hac : Acyclic g) (L commons : List Nat)
+    (hL : AncClosed g L) (hc : ∀ s ∈ commons, s ∈ L) (w : Nat) (hw : (g.get? w).isSome = true)
+    (a : Nat) (hr : Reach g a w) :
+    a ∈ L ∨ ∃ d, (a, d) ∈ unfoldTree g (fun x => commons.contains x) (g.length + 1) w 0 :=
+  fetch_closed g hwf hac L commons hL hc w hw a hr
+
+/-- The list is acceptable to the receiver at EVERY position (repeats included): the parents of
+    the commit at position i are held by the receiver or occur before position i. -/
+theorem C09_list_acceptable (g : Graph) (hwf : g.wf = true) (hac : Acyclic g)
+    (L commons : List Nat) (hL : AncClosed g L) (hc : ∀ s ∈ commons, s ∈ L)
+    (depth : Nat) (w : Nat) (hw : (g.get? w).isSome = true)
+    (fuel : Nat) (cl tl sums : List Nat) (steps : Nat)
+    (h : walkWant Facts.finderRevisitsWithinDepth g commons [] depth false fuel [(w, 0)] [] [] [] 0 = .ok (some (cl, tl, sums, steps)))
+    (i : Nat) (c : Nat) (hi : cl[i]? = some c) (p : Nat) (hp : p ∈ parentsOf g c) :
+    p ∈ L ∨ p ∈ cl.take i :=
+  walk_list_parent_first_everywhere _ g hwf hac L commons hL hc depth w hw fuel cl tl sums steps h i c hi p hp
+
+/-- End to end for one updated ref: finder walk → sender object stream → receiver. Every object is
+    accepted, afterwards the receiver holds EVERY ancestor of the want, and nothing it held is lost.
+    Holds for any table selection `tts`, any depth, any set of acknowledged commons (i.e. however
+    many negotiation rounds produced them). -/
+theorem C09_transfer_closed (s : SrcRepo) (d : DstRepo) (hwf : s.commits.wf = true) (hac : Acyclic s.commits)
+    (commons tts : List Nat) (depth : Nat) (w : Nat) (hw : (s.commits.get? w).isSome = true)
+    (hheld : ∀ c, (d.commits.get? c).isSome = true → ∀ p ∈ parentsOf s.commits c, (d.commits.get? p).isSome = true)
+    (hcom : ∀ c ∈ commons, (s.commits.get? c).isSome = true ∧ (d.commits.get? c).isSome = true)
+    (hblk : ∀ c ∈ commons, ∀ cm, s.commits.get? c = some cm → ∀ ti, s.table? cm.table = some ti → ∀ b ∈ ti.blocks, b ∈ d.blocks)
+    (fuel : Nat) (cl tl sums : List Nat) (steps : Nat)
+    (hwalk : walkWant Facts.finderRevisitsWithinDepth s.commits commons [] depth false fuel [(w, 0)] [] [] [] 0 = .ok (some (cl, tl, sums, steps)))
+    (st : SenderSt) (objs : List ObjKey)
+    (hi : senderInit s commons = .ok st) (ho : senderObjs s tts st cl = .ok objs) :
+    ∃ d', receiveAll s d objs = .ok d' ∧
+      (∀ a, Reach s.commits a w → (d'.commits.get? a).isSome = true) ∧
+      (∀ k, d.has k = true → d'.has k = true) :=
+  fetch_end_to_end s d hwf hac commons tts depth w hw hheld hcom hblk _ fuel cl tl sums steps hwalk st objs hi ho
+
+/-- … and this is independent of how the object stream is cut into packfiles: for every size
+    limit the concatenation of the packfiles is the stream. -/
+theorem C09_any_packfile_size (maxSize : Nat) (size : ObjKey → Nat) (objs : List ObjKey) :
+    (packfiles maxSize size (objs.length + 1) objs).flatten = objs :=
+  packfiles_flatten maxSize size objs
+
+/-- Idempotence of the selection: when the want itself is an acknowledged common commit (the
+    receiver already holds it — the state right after a successful fetch/push), nothing is listed. -/
+theorem C09_repeat_lists_nothing (g : Graph) (commons : List Nat) (depth : Nat) (w : Nat)
+    (hw : commons.contains w = true) (fuel : Nat) (cl tl sums : List Nat) (steps : Nat)
+    (h : walkWant Facts.finderRevisitsWithinDepth g commons [] depth false fuel [(w, 0)] [] [] [] 0 = .ok (some (cl, tl, sums, steps))) :
+    cl = [] ∧ tl = [] := by
+  have hm : w ∈ commons := List.contains_iff_mem.1 hw
+  match fuel with
+  | 0 => simp [walkWant] at h
+  | 1 => simp [walkWant, hm] at h
+  | f + 2 =>
+    simp [walkWant, hm] at h
+    exact ⟨h.1, h.2.1⟩
+
+/-- non-vacuity: a two-commit history, receiver holds the root, want = the tip -/
+example :
+    let g : Graph := [{ id := 1, time := 1, parents := [] }, { id := 2, time := 2, parents := [1] }]
+    walkWant true g [1] [] 0 false 10 [(2, 0)] [] [] [] 0 = .ok (some ([2], [2], [1, 2], 2)) := by decide
+
 end Wrgl
